@@ -39,9 +39,9 @@ char CFG_ICACHE_FLASH_ATTR
 supla_esp_cfg_save(SuplaEspCfg *cfg) {
 
 	ets_intr_lock();
-	spi_flash_erase_sector(CFG_SECTOR);
 
-	if ( SPI_FLASH_RESULT_OK == spi_flash_write(CFG_SECTOR * SPI_FLASH_SEC_SIZE, (uint32*)cfg, sizeof(SuplaEspCfg)) ) {
+	if ( SPI_FLASH_RESULT_OK == spi_flash_erase_sector(CFG_SECTOR)
+	     && SPI_FLASH_RESULT_OK == spi_flash_write(CFG_SECTOR * SPI_FLASH_SEC_SIZE, (uint32*)cfg, sizeof(SuplaEspCfg)) ) {
 		//supla_log(LOG_DEBUG, "CFG WRITE SUCCESS");
 		ets_intr_unlock();
 		return 1;
